@@ -42,3 +42,33 @@ Proof.
   destruct (stack_multi_rows_within_series W series r Hr) as [s [i [H1 [H2 [_ H3]]]]]. exists s, i. auto.
 Qed.
 Print Assumptions C07_code_no_mixed_window.
+
+(* ---- the joint front end AS TRANSLATED in skeleton mode (Gen/G_front_joint.v; facts: Proofs/GenEquivFE.v).
+   SOURCE-LEVEL FORM OF THE KNOWN FINDING joint-unmasked-beta: a call that returns made exactly these calls in this order;
+   the argument bundle the main loop receives (`args`) is what UserArguments(...) answered when called with the caller's own
+   switching cost `beta`, BEFORE the mask was built; the masked product `beta * template` (`masked`) appears in no later
+   call - it only feeds the length assertion.  (A repair moves the bundling after the masking; this statement then no
+   longer holds of the translated text and has to be replaced by its positive counterpart.) ---- *)
+From Ticc Require Import Gen.PySkel Gen.G_front_joint Proofs.GenEquivFE.
+Theorem C07_code_joint_call_sequence : forall (V : Type) (veq : V -> V -> bool) (getattr : V -> string -> V)
+    (oracle : list (event V) -> string -> list V -> res V)
+    (data W K lam beta lim eps procs m biased r : V) (log log' : list (event V)),
+  g_ticc_joint_labels V veq getattr oracle data W K lam beta lim eps procs m biased log = (Ret r, log') ->
+  exists lst combined sizes args template masked total master,
+    log' = (log ++ [Ev "list"%string [data];
+                    Ev f_stack_multi [lst; W];
+                    Ev f_sizes [lst; W];
+                    Ev f_args [W; K; lam; beta; lim; eps; procs; m; biased];
+                    Ev f_template [sizes];
+                    Ev "op:*"%string [beta; template];
+                    Ev "sum"%string [sizes];
+                    Ev f_fit [args; combined];
+                    Ev f_split [master; sizes; lst]])%list /\
+    oracle (log ++ [Ev "list"%string [data]; Ev f_stack_multi [lst; W]; Ev f_sizes [lst; W]])%list
+           f_args [W; K; lam; beta; lim; eps; procs; m; biased] = Ret args /\
+    oracle (log ++ [Ev "list"%string [data]; Ev f_stack_multi [lst; W]; Ev f_sizes [lst; W];
+                    Ev f_args [W; K; lam; beta; lim; eps; procs; m; biased]; Ev f_template [sizes]])%list
+           "op:*"%string [beta; template] = Ret masked /\
+    veq (getattr (getattr masked "shape"%string) "[0]"%string) total = true.
+Proof. exact joint_returns. Qed.
+Print Assumptions C07_code_joint_call_sequence.
